@@ -111,9 +111,10 @@ type smWorld struct {
 	reqR      uint32
 	advanceOK map[string]string // "h/r" -> reason a move to r+1 is justified
 
-	aStore  *tmmemstore.ActionStore
-	fStore  *tmmemstore.FinalizationStore
-	smStore *tmmemstore.StateMachineStore
+	onRecord map[string]map[string]string // h/r -> kind -> signature the action store has accepted
+	aStore   *tmmemstore.ActionStore
+	fStore   *tmmemstore.FinalizationStore
+	smStore  *tmmemstore.StateMachineStore
 }
 
 // what the SM has been shown for its current round
@@ -522,19 +523,57 @@ func (a smActionStore) SaveProposedHeaderAction(ctx context.Context, ph tmconsen
 	a.w.preSave("proposal", string(ph.Signature))
 	err := a.w.aStore.SaveProposedHeaderAction(ctx, ph)
 	a.w.recSave("proposal", string(ph.Signature), err)
+	a.recorded(ctx, ph.Header.Height, ph.Round, "proposal", string(ph.Signature), err)
 	return err
 }
 func (a smActionStore) SavePrevoteAction(ctx context.Context, pk gcrypto.PubKey, vt tmconsensus.VoteTarget, sig []byte) error {
 	a.w.preSave("prevote", string(sig))
 	err := a.w.aStore.SavePrevoteAction(ctx, pk, vt, sig)
 	a.w.recSave("prevote", string(sig), err)
+	a.recorded(ctx, vt.Height, vt.Round, "prevote", string(sig), err)
 	return err
 }
 func (a smActionStore) SavePrecommitAction(ctx context.Context, pk gcrypto.PubKey, vt tmconsensus.VoteTarget, sig []byte) error {
 	a.w.preSave("precommit", string(sig))
 	err := a.w.aStore.SavePrecommitAction(ctx, pk, vt, sig)
 	a.w.recSave("precommit", string(sig), err)
+	a.recorded(ctx, vt.Height, vt.Round, "precommit", string(sig), err)
 	return err
+}
+
+// recorded (C02): the action store is what keeps the validator from signing twice across restarts, so
+// every signature it has accepted for a round must still be on record after every later save.
+func (a smActionStore) recorded(ctx context.Context, h uint64, r uint32, kind, sig string, err error) {
+	w := a.w
+	k := fmt.Sprintf("%d/%d", h, r)
+	w.mu.Lock()
+	if w.onRecord == nil {
+		w.onRecord = map[string]map[string]string{}
+	}
+	if w.onRecord[k] == nil {
+		w.onRecord[k] = map[string]string{}
+	}
+	if err == nil {
+		w.onRecord[k][kind] = sig
+	}
+	want := map[string]string{}
+	for kk, v := range w.onRecord[k] {
+		want[kk] = v
+	}
+	w.mu.Unlock()
+	ra, lerr := w.aStore.LoadActions(ctx, h, r)
+	if lerr != nil {
+		if len(want) > 0 {
+			w.violate("C02/recorded-signature-lost/load-failed", "after saving a %s the action store cannot load round %d/%d any more although it holds %d recorded signatures: %v", kind, h, r, len(want), lerr)
+		}
+		return
+	}
+	have := map[string]string{"proposal": string(ra.ProposedHeader.Signature), "prevote": ra.PrevoteSignature, "precommit": ra.PrecommitSignature}
+	for _, kk := range []string{"proposal", "prevote", "precommit"} {
+		if want[kk] != "" && have[kk] != want[kk] {
+			w.violate("C02/recorded-signature-lost/"+kk, "after saving a %s for round %d/%d the action store no longer holds the %s signature it had recorded for that round", kind, h, r, kk)
+		}
+	}
 }
 func (a smActionStore) LoadActions(ctx context.Context, h uint64, r uint32) (tmstore.RoundActions, error) {
 	return a.w.aStore.LoadActions(ctx, h, r)
